@@ -84,6 +84,8 @@ type rlua struct {
 	steps   int
 	nextID  int
 	strmeta *rtable
+	// softBound: exceeding the step bound skips the program instead of aborting the path; tooLong: it did
+	softBound, tooLong bool
 }
 
 type rsep struct{} // separator between emit calls in the trace
@@ -103,9 +105,16 @@ type rctl struct {
 
 func (r *rlua) fail(msg string) { panic(rerror{LString(msg)}) }
 
+// rTooLong ends a reference run of a generated program that is longer than the step bound: the path is
+// skipped (and counted), not judged.
+type rTooLong struct{}
+
 func (r *rlua) tick() {
 	r.steps++
 	if r.steps > 20000 {
+		if r.softBound {
+			panic(rTooLong{})
+		}
 		VAbort("R-lua step bound exceeded")
 	}
 }
@@ -1127,6 +1136,10 @@ func (r *rlua) run(chunk []ast.Stmt, args []rval) (results []rval, errv rval, fa
 		if x := recover(); x != nil {
 			if e, ok := x.(rerror); ok {
 				errv, failed = e.v, true
+				return
+			}
+			if _, ok := x.(rTooLong); ok {
+				r.tooLong = true
 				return
 			}
 			panic(x)
